@@ -21,6 +21,19 @@ def main():
     claimed = set(json.load(open(os.path.join(VERIF, "tools", "claimed.json"))))   # integrated (committed) checks only
     checks = []
     na = []
+    import importlib
+    enabled = registry._enabled_extras()
+    comp = {}          # property -> [composition engines contributing an EXTRA sub-check]
+    comp_engines = {}
+    for name in registry._modules():
+        if name in registry.BROKEN or (enabled is not None and name not in enabled):
+            continue
+        mod = importlib.import_module("harness.bindings." + name)
+        ex = getattr(mod, "EXTRA", {})
+        if ex:
+            comp_engines[name] = sorted(ex)
+            for pid in ex:
+                comp.setdefault(pid, []).append(name)
     for pr in props:
         pid = pr["id"]
         if pid in meta and pid in claimed:
@@ -35,7 +48,11 @@ def main():
                 "level_claimed": {"category": m.get("category", "model_checking"), "text": m["text"],
                                   "design_ref": m.get("design_ref", "DESIGN.md §5 " + pid)},
                 "level_note": m["note"],
-                "technique": m["technique"],
+                "technique": m["technique"] + ("" if pid not in comp else
+                    " Additionally the composition engine(s) %s (own TLA+ specification of the composed layers under "
+                    "specs/<engine>/, TLC-checked, traces of the real composed gateware validated by TLC) contribute "
+                    "sub-checks that run under the same command and report into the same evidence file."
+                    % ", ".join(comp[pid])),
             })
         else:
             na.append({"property_id": pid,
@@ -50,6 +67,12 @@ def main():
             __import__("harness.bindings." + e, fromlist=["SPEC_DIR"]), "SPEC_DIR", e), e),
             "serves_properties": ps,
             "kind_free_text": "TLA+ specification checked by TLC, bound to the gateware by pysim trace validation"})
+    for e, ps in sorted(comp_engines.items()):
+        engines.append({"name": e, "path": "specs/%s + harness/bindings/%s.py" % (e, e),
+                        "serves_properties": [p for p in ps if p in claimed],
+                        "kind_free_text": "composition engine: TLA+ specification of several composed LUNA layers checked by "
+                                          "TLC, bound to the real composed gateware by pysim trace validation; contributes "
+                                          "sub-checks (EXTRA) to properties owned by leaf engines"})
     man = {
         "version": 1,
         "setup_cmd": "./setup.sh",
